@@ -21,6 +21,14 @@ RatLt(p, q) == p[1] * q[2] <  q[1] * p[2]
 RatEq(p, q) == p[1] * q[2] =  q[1] * p[2]
 RatRed(p)   == LET g == GCD(p[1], p[2]) IN IF g = 0 THEN p ELSE <<p[1] \div g, p[2] \div g>>
 
+(* reduced rational arithmetic (keeps 32-bit intermediates small) *)
+RatN(p)      == LET r == RatRed(p) IN IF r[2] < 0 THEN << -r[1], -r[2] >> ELSE r
+RatAdd(p, q) == RatN(<< p[1] * q[2] + q[1] * p[2], p[2] * q[2] >>)
+RatSub(p, q) == RatN(<< p[1] * q[2] - q[1] * p[2], p[2] * q[2] >>)
+RatMul(p, q) == RatN(<< p[1] * q[1], p[2] * q[2] >>)
+RatDiv(p, q) == RatN(<< p[1] * q[2], p[2] * q[1] >>)
+RatInt(n)    == << n, 1 >>
+
 (* 3-vectors and 3x3 matrices as tuples / tuples of rows *)
 Dot3(a, b)   == a[1]*b[1] + a[2]*b[2] + a[3]*b[3]
 Cross3(a, b) == << a[2]*b[3] - a[3]*b[2], a[3]*b[1] - a[1]*b[3], a[1]*b[2] - a[2]*b[1] >>
